@@ -582,6 +582,10 @@ def sym_floordiv(a, m):
         return math.floor(a.p.evaluate({num.ctx().pi: math.pi}).real / mp.evaluate({num.ctx().pi: math.pi}).real)
     P = PATH
     lo, hi = (P.policy["mod_range"] if P else (-4, 4))
+    if P is not None:
+        msg = f"floor-division/modulo quotients explored in [{lo}, {hi}] only (inputs with other quotients are outside the claim)"
+        if msg not in P.assumptions:
+            P.assumptions.append(msg)
     alts = []
     for k in range(lo, hi + 1):
         r = a.p.sub(mp.scale(k))
